@@ -255,3 +255,19 @@ PROPS["C18"] = dict(
           "inspected at the scorer; distinct = distinct case text."),
     assumptions=["dither off"],
 )
+
+PROPS["C17"] = dict(
+    harness="model",
+    level="fault_enumeration",
+    enumerate=True,
+    exhaustive=True,
+    technique="deterministic fault enumeration (missing / zero-length / truncation at every header byte and structural boundary / single-field corruption of every leading count and dimension word, checksum and header flags) plus seeded sampling of the remaining truncation lengths and byte flips; each fault in a forked child under ASan/UBSan",
+    level_text="For both bundled models and each file (mdef, means, variances, sendump, transition_matrices, feat_params.json, noisedict.txt, plus the repository's feature_transform) every enumerated fault is delivered through decoder_init with mmap on and off and, for mdef/means/variances/tmat, through the loader's *_s3file entry point on a heap copy of exactly the damaged length (so that reading outside the file's bytes is an ASan report): the child must return, initialisation must fail through its return value (or load a still self-consistent file and survive a short decode), truncated/empty/missing binary files must never be accepted, and the intact model must afterwards load and decode the reference utterance correctly in the same process.",
+    level_note="Trusted: ASan/UBSan, the harness' header-end computation for the three file layouts. The enumerated sub-space (counts reported per run) is covered exhaustively; the remaining truncation lengths and byte flips are sampled by the generated campaign.",
+    quick=dict(cases=25, maxlen=16, budget=100),
+    thorough=dict(cases=600, maxlen=16, budget=1500),
+    rule=("fault index < enumerated count selects one fault of the deterministic list (files x {missing, empty, truncation lengths, 32-bit field corruptions "
+          "with 8 replacement values, header byte flips} x {mmap, no mmap, loader on exact heap copy}); larger indices decode to sampled truncation lengths / bit flips. "
+          "Every fault is non-trivial; distinct = distinct fault description."),
+    assumptions=["feat_params.json / noisedict.txt damage may legitimately still load (text files): then the decoder must work"],
+)
